@@ -57,7 +57,115 @@ def facts_of(f, cond, polarity):
     if k == "CXXOperatorCallExpr" and n.get("op") in NEG and len(n["c"]) == 3:
         o = n["op"] if pol else NEG[n["op"]]
         return [(o, n["c"][1], n["c"][2])]
-    return [("true" if pol else "false", n, None)]
+    out = [("true" if pol else "false", n, None)]
+    # a named boolean local (`const bool got = pkt_.pdu() != 0; if (got)`) tests what it was initialised with, provided nothing
+    # it reads is written again further down the function
+    if k == "DeclRefExpr" and n.get("var") and not n.get("parm") and not n.get("glob"):
+        init = fresh_bool_local(f, n["var"])
+        if init is not None:
+            out = out + facts_of(f, init, pol)
+    # a named predicate (`bool uses_big_buffer() const { return real_size_ > small_buffer_size; }`) tests what it
+    # returns: the returned expression, read in the caller's terms, holds (or fails) with the call
+    if k in ("CXXMemberCallExpr", "CallExpr") and n.get("callee") and not n.get("ext") and not n.get("grafted_pred"):
+        key = (id(f), n["id"], pol)
+        if key not in _PRED:
+            _PRED[key] = []
+            pe = predicate_return(facts.db_of(f), n["callee"])
+            if pe is not None and pe[0] is not f:
+                try:
+                    e = graft(pe[0], f, pe[1], n)
+                    _PRED[key] = facts_of(f, e, pol)
+                except (KeyError, RecursionError):
+                    _PRED[key] = []
+        out = out + _PRED[key]
+    return out
+
+
+_PRED = {}
+_PRET = {}
+_FBL = {}
+
+
+def fresh_bool_local(f, var):
+    """initialiser of the single-assignment boolean local `var` when no variable / member it reads is assigned after the
+    declaration (in source order), else None"""
+    key = (id(f), var)
+    if key in _FBL:
+        return _FBL[key]
+    _FBL[key] = None
+    sa = facts.single_assign(f)
+    if var not in sa:
+        return None
+    vd = [x for x in facts.fn_nodes(f) if x["k"] == "VarDecl" and x.get("var") == var]
+    if not vd or (facts.tyi(f, vd[0].get("t")) or {}).get("k") != "bool":
+        return None
+    init = sa[var]
+    reads = set()
+    for x in facts.walk(init):
+        if x["k"] == "DeclRefExpr" and x.get("var"):
+            reads.add(("v", x["var"]))
+        if x["k"] == "MemberExpr" and x.get("member"):
+            reads.add(("m", x["member"]))
+        if x["k"] in ("CompoundAssignOperator", "CXXNewExpr", "CXXDeleteExpr") or (x["k"] == "BinaryOperator" and x.get("op") == "=") or \
+                (x["k"] == "UnaryOperator" and x.get("op") in ("++", "--")):
+            return None
+    line = vd[0].get("l") or 0
+    for x in facts.fn_nodes(f):
+        if (x.get("l") or 0) <= line:
+            continue
+        lhs = None
+        if x["k"] in ("BinaryOperator", "CompoundAssignOperator") and (x["k"] == "CompoundAssignOperator" or x.get("op") == "="):
+            lhs = x["c"][0]
+        elif x["k"] == "UnaryOperator" and x.get("op") in ("++", "--"):
+            lhs = x["c"][0]
+        elif x["k"] == "CXXOperatorCallExpr" and x.get("op") in ("=", "+=", "-=", "++", "--") and len(x["c"]) >= 2:
+            lhs = x["c"][1]
+        if lhs is None:
+            continue
+        for y in facts.walk(lhs):
+            if (y["k"] == "DeclRefExpr" and ("v", y.get("var")) in reads) or (y["k"] == "MemberExpr" and ("m", y.get("member")) in reads):
+                return None
+    _FBL[key] = init
+    return init
+
+
+def predicate_return(db, callee):
+    """(helper, EXPR) when `callee` is a library function whose whole body is `return EXPR;` of boolean type, with no side
+    effect in EXPR and reading only its parameters, *this (const member) and constants; else None"""
+    if db is None or not callee:
+        return None
+    key = (id(db), callee)
+    if key in _PRET:
+        return _PRET[key]
+    _PRET[key] = None
+    h = db.fn(callee)
+    if h is None or not h.get("body") or h.get("virtual") or h.get("kind") in ("ctor", "dtor") or \
+            not (h.get("file") or "").startswith(("src/", "include/tins")):
+        return None
+    if (facts.tyi(h, h.get("ret")) or {}).get("k") != "bool":
+        return None
+    if h.get("rec") and not (h.get("id") or "").rstrip().endswith("const"):
+        return None
+    st = [x for x in h["body"].get("c", []) if x is not None]
+    if len(st) != 1 or st[0]["k"] != "ReturnStmt" or not st[0].get("c"):
+        return None
+    pvars = set(p.get("var") for p in h.get("params", ()))
+    cnt = 0
+    for x in facts.walk(st[0]["c"][0]):
+        cnt += 1
+        kx = x["k"]
+        if kx in MUTATING or kx in ("CXXThrowExpr", "CXXConstructExpr", "CXXTemporaryObjectExpr") or \
+                (kx == "BinaryOperator" and x.get("op") == "=") or (kx == "UnaryOperator" and x.get("op") in ("++", "--")):
+            return None
+        if kx == "CXXMemberCallExpr" and not (x.get("callee") or "").rstrip().endswith("const"):
+            return None
+        if kx == "DeclRefExpr" and x.get("var") is not None and x.get("var") not in pvars and not x.get("glob") and "v" not in x \
+                and not x.get("enumc"):
+            return None
+    if cnt > 40:
+        return None
+    _PRET[key] = (h, st[0]["c"][0])
+    return _PRET[key]
 
 
 # ---------------------------------------------------------------------------------------------- guard helpers
